@@ -164,9 +164,23 @@ Proof.
   destruct (_ && _); auto with c13.
 Qed.
 
+Definition field_of_name (r : res (list fskel)) (n : string) : option fskel :=
+  match r with ROk fs => find (fun f => String.eqb (f_ncvar f) n) fs | _ => None end.
+
+Lemma noerr_own_bounds_msgs ds n v o : internal ds n = true -> noerr (own_bounds_msgs ds n v o).
+Proof.
+  intros Hn. unfold own_bounds_msgs. destruct o as [b|]; auto with c13.
+  destruct (attr v "bounds") as [own|]; auto with c13.
+  destruct (str_empty own || String.eqb own b); auto with c13.
+  apply noerr_bind. { apply noerr_check_bounds; assumption. }
+  intros r _. auto with c13.
+Qed.
+
 Lemma noerr_create_bounded ds t n o : internal ds n = true -> noerr (create_bounded ds t n o).
 Proof.
   intros Hn. unfold create_bounded. destruct (internal_get_var ds n Hn) as [v ->]. simpl.
+  apply noerr_bind. { apply noerr_own_bounds_msgs; assumption. }
+  intros pre _.
   destruct (bounds_name v o) as [b|]; auto with c13.
   destruct (str_empty b); auto with c13.
   apply noerr_bind. { apply noerr_check_bounds; assumption. }
@@ -177,6 +191,7 @@ Qed.
 Lemma create_bounded_name ds t n o c ms : create_bounded ds t n o = ROk (c, ms) -> c_ncvar c = n /\ c_type c = t.
 Proof.
   unfold create_bounded. destruct (get_var ds n) as [v| |]; simpl; try discriminate.
+  destruct (own_bounds_msgs ds n v o) as [pre| |]; simpl; try discriminate.
   destruct (bounds_name v o) as [b|].
   - destruct (str_empty b). { intros H; inversion H; auto. }
     destruct (check_bounds ds n b) as [[ok ms']| |]; simpl; try discriminate.
@@ -185,25 +200,68 @@ Proof.
 Qed.
 
 (* single fault on a bounds / climatology attribute: the construct is kept, without
-   bounds, and the report names the variable that was not found *)
-Lemma bounds_missing ds t n o v b :
-  get_var ds n = ROk v -> bounds_name v o = Some b -> str_empty b = false -> internal ds b = false ->
-  create_bounded ds t n o = ROk (mkCons t n None, [(b, WBounds, RMissing)]).
+   bounds, and the report names the variable that was not found
+   (pre = what the check of a redundant own bounds attribute adds; [] without override) *)
+Lemma bounds_missing ds t n o v b pre :
+  get_var ds n = ROk v -> own_bounds_msgs ds n v o = ROk pre ->
+  bounds_name v o = Some b -> str_empty b = false -> internal ds b = false ->
+  create_bounded ds t n o = ROk (mkCons t n None, pre ++ [(b, WBounds, RMissing)]).
 Proof.
-  intros Hv Hb He Hi. unfold create_bounded. rewrite Hv. simpl. rewrite Hb, He.
+  intros Hv Hp Hb He Hi. unfold create_bounded. rewrite Hv. simpl. rewrite Hp. simpl. rewrite Hb, He.
   unfold check_bounds. rewrite Hi. reflexivity.
 Qed.
 
 (* ... and a bounds variable with foreign dimensions likewise *)
-Lemma bounds_foreign ds t n o v b dc db :
-  get_var ds n = ROk v -> bounds_name v o = Some b -> str_empty b = false -> internal ds b = true ->
+Lemma bounds_foreign ds t n o v b dc db pre :
+  get_var ds n = ROk v -> own_bounds_msgs ds n v o = ROk pre ->
+  bounds_name v o = Some b -> str_empty b = false -> internal ds b = true ->
   ncdims ds n = ROk dc -> ncdims ds b = ROk db ->
   Nat.eqb (length db) (S (length dc)) && list_eqb String.eqb dc (removelast db) = false ->
-  create_bounded ds t n o = ROk (mkCons t n None, [(b, WBounds, RDims)]).
+  create_bounded ds t n o = ROk (mkCons t n None, pre ++ [(b, WBounds, RDims)]).
 Proof.
-  intros Hv Hb He Hi Hc Hd Hx. unfold create_bounded. rewrite Hv. simpl. rewrite Hb, He.
+  intros Hv Hp Hb He Hi Hc Hd Hx. unfold create_bounded. rewrite Hv. simpl. rewrite Hp. simpl. rewrite Hb, He.
   unfold check_bounds. rewrite Hi, Hc, Hd. simpl. rewrite Hx. reflexivity.
 Qed.
+
+Lemma own_bounds_msgs_none ds n v : own_bounds_msgs ds n v None = ROk [].
+Proof. reflexivity. Qed.
+
+(* fix3-1: a formula terms variable whose bounds come from the parametric coordinate's bounds
+   (override) and whose OWN bounds attribute names a variable that is not in the file: the
+   construct is made exactly as the override decides, and the report names the missing variable *)
+Lemma redundant_bounds_reported ds t n v b own c ms :
+  get_var ds n = ROk v -> attr v "bounds" = Some own -> str_empty own = false ->
+  String.eqb own b = false -> internal ds own = false ->
+  create_bounded ds t n (Some b) = ROk (c, ms) ->
+  In (own, WBounds, RMissing) ms /\
+  (internal ds b = true -> str_empty b = false -> forall dc db, ncdims ds n = ROk dc -> ncdims ds b = ROk db ->
+     Nat.eqb (length db) (S (length dc)) && list_eqb String.eqb dc (removelast db) = true ->
+     c = mkCons t n (Some b)).
+Proof.
+  intros Hv Ha He Hne Hi. unfold create_bounded. rewrite Hv. simpl.
+  unfold own_bounds_msgs. rewrite Ha, He, Hne. simpl.
+  unfold check_bounds at 1. rewrite Hi. simpl.
+  destruct (str_empty b) eqn:Eb.
+  - intros H; inversion H; subst. split; [left; reflexivity|]. intros _ Hx; discriminate.
+  - destruct (check_bounds ds n b) as [[ok ms']| |] eqn:Ec; simpl; try discriminate.
+    intros H; inversion H; subst. split; [left; reflexivity|].
+    intros Hb _ dc db Hc Hd Hx. unfold check_bounds in Ec. rewrite Hb, Hc, Hd in Ec. simpl in Ec.
+    rewrite Hx in Ec. inversion Ec; subst. reflexivity.
+Qed.
+
+Definition ds_own_bounds (own : string) : ads :=
+  mkAds [ mkVar "z" ["z"] false false [("bounds", "zb"); ("formula_terms", "a: a")];
+          mkVar "zb" ["z"; "nv"] false false [("formula_terms", "a: ab")];
+          mkVar "a" ["z"] false false [("bounds", own)];
+          mkVar "ab" ["z"; "nv"] false false [];
+          mkVar "ta" ["z"] false false [] ] [].
+
+Lemma redundant_bounds_example :
+  option_map (fun f => (f_cons f, f_report f)) (field_of_name (read_skel (ds_own_bounds "ab")) "ta") =
+    Some ([mkCons CDim "z" (Some "zb"); mkCons CDomAnc "a" (Some "ab")], []) /\
+  option_map (fun f => (f_cons f, f_report f)) (field_of_name (read_skel (ds_own_bounds "nope_missing")) "ta") =
+    Some ([mkCons CDim "z" (Some "zb"); mkCons CDomAnc "a" (Some "ab")], [("nope_missing", WBounds, RMissing)]).
+Proof. split; vm_compute; reflexivity. Qed.
 
 (* ------------------------------------------------------------------ coordinates attribute *)
 Lemma aux_pass_app ds dims l1 l2 :
@@ -903,7 +961,7 @@ Lemma field_rest_total ds v fdims coords :
 Proof.
   intros Hf Hc. unfold field_rest.
   apply noerr_bind. { apply noerr_ft_pass; assumption. }
-  intros [[ancs ftrefs] ftms] _.
+  intros [[ancs0 ftrefs] ftms] _. cbv zeta.
   lazymatch goal with |- noerr (match ?X with _ => _ end) => destruct X as [[gmrefs gmvars] gmms] end.
   apply noerr_bind. { apply noerr_opt_pass. intros s. apply noerr_measure_pass; assumption. }
   intros mp _. apply noerr_bind. { apply noerr_opt_pass. intros s. apply parse_cell_methods_total. }
